@@ -853,7 +853,87 @@ def run_pricedim(prog, E=None, prefix="mpq_", rule="R-PRICEDIM"):
             res.sample({"function": f.name, "dimension_changing_events": len(m), "verdict": "factorok reset or devex data released on every success path"}, limit=12)
     res.counts["dimension_changing_public_functions"] = n
     res.floor("public functions that may change the row / column count", n, 8)
+    # the same for every array of the pricing sub-records that is laid out in a column dimension: not only the devex frames - the primal
+    # steepest-edge norms (one per non-basic column) are kept by a dual re-solve as well
+    arrays = pricing_arrays(prog, prefix)
+    colarr = sorted(a for a, d in arrays.items() if d & {"ncols", "nnbasic", "nstruct"})
+    res.counts["pricing_arrays_by_dimension"] = {a: sorted(d) for a, d in sorted(arrays.items())}
+    res.floor("arrays of the pricing sub-records allocated in a column dimension", len(colarr), 4)
+    for f, pidx in api_functions(prog, prefix):
+        m_all = events(prog, E, f, pidx, {"ncols", "nstruct"}, prefix)
+        if not m_all or base(f.name) in EXEMPT:
+            continue
+        # one entry per non-basic column: the count changes with the structural columns only (a new row brings its own basic logical)
+        m_nnb = events(prog, E, f, pidx, {"nstruct"}, prefix)
+        common = set()
+        for (j, fp, loc, how, bid, idx) in E.direct_writes(f):
+            if j == pidx and fp and fp[-1].endswith("qsdata::factorok"):
+                e = f.blocks[bid]["e"][idx]
+                if e[0] == "A" and const_of(e[1][3]) == 0:
+                    common.add((bid, idx))
+        for ci in E.callinfo[f.key]:
+            (g, name, loc, args, bid, idx, c) = ci
+            if g is not None and (bid, idx) in m_all and any(g.key == f2.key for f2, _ in api_functions(prog, prefix)):
+                common.add((bid, idx))
+        for arr in colarr:
+            m = m_all if arrays[arr] & {"ncols"} else m_nnb
+            if not m:
+                continue
+            inv = set(common)
+            for ci in E.callinfo[f.key]:
+                (g, name, loc, args, bid, idx, c) = ci
+                for (j, fp) in E.call_writes(f, ci):
+                    if j == pidx and fp and fp[-1].endswith(arr):
+                        inv.add((bid, idx))
+            for (j, fp, loc, how, bid, idx) in E.direct_writes(f):
+                if j == pidx and fp and fp[-1].endswith(arr):
+                    inv.add((bid, idx))
+            an = MustFollow(prog, f, m, inv).run()
+            res.obligations += len(m)
+            res.nontrivial += len(m)
+            if an.bad:
+                loc, (bid, st) = sorted(an.bad.items())[0]
+                res.violations.append(Violation(rule, "%s|column count changed, factorok and %s kept" % (base(f.name), arr), f.name, short_loc(loc),
+                                                "%s can return 0 after a call that changes the number of columns with p->factorok still set and the array %s of p->pricing "
+                                                "(allocated with %s entries) still in place: a dual re-solve keeps the pricing record, and the array is then indexed "
+                                                "with the new column numbers" % (f.name, arr, "/".join(sorted(arrays[arr]))), path=an.flow.witness(bid, st)))
     return res
+
+
+def _line_of(e):
+    loc = e[2] if len(e) > 2 and isinstance(e[2], str) else ""
+    parts = loc.split(":")
+    return ":".join(parts[:2]) if len(parts) >= 2 else None
+
+
+def pricing_arrays(prog, prefix="mpq_"):
+    """{record::field: {dimension names}} for the pointer fields of the pricing sub-records (*_steep_info, *_devex_info): the dimensions of
+    lpinfo that occur in the allocation of the field - the allocation macros expand at one source position, so the length expression is
+    found among the elements that share the position of the store into the field"""
+    out = {}
+    for f in prog.funcs.values():
+        if f.live is None or not f.name.startswith(prefix):
+            continue
+        byloc = {}
+        stores = []
+        for b, i, e in f.elements(live_only=True):
+            byloc.setdefault(_line_of(e), []).append(e)
+            if e[0] == "A" and e[1][1] == "=":
+                fl = fields_of(apath(e[1][2])[2])
+                if fl and fl[-1].split("::")[0].endswith(("steep_info", "devex_info")) and const_of(e[1][3]) is None:
+                    stores.append((fl[-1].replace(prefix, ""), e))
+        for fld, e in stores:
+            dims = set()
+            for e2 in byloc.get(_line_of(e), []):
+                roots = [init for _n, init in e2[1] if init is not None] if e2[0] == "D" else [e2[1]]
+                for nd in (x for r in roots for x in walk(r)):
+                    if isinstance(nd, list) and nd and nd[0] == "m" and isinstance(nd[2], str) and nd[2].replace(prefix, "").startswith("lpinfo::"):
+                        d = nd[2].split("::")[1]
+                        if d in ("nrows", "ncols", "nnbasic", "nstruct"):
+                            dims.add(d)
+            if dims:
+                out.setdefault(fld, set()).update(dims)
+    return out
 
 
 class MustFollowFail(MustFollow):
